@@ -127,6 +127,24 @@ func (s *Stream) More() bool {
 }
 
 func (s *Stream) Token() (interface{}, error) {
+	tok, err := s.token()
+	if s.readErr != nil {
+		// the reader failed: the input did not end where the window ends
+		if err != nil {
+			return nil, s.readErr
+		}
+		switch tok.(type) {
+		case float64, json.Number:
+			if s.cursor >= s.length {
+				// a number that ends with the window may have been cut off
+				return nil, s.readErr
+			}
+		}
+	}
+	return tok, err
+}
+
+func (s *Stream) token() (interface{}, error) {
 	for {
 		c := s.char()
 		switch c {
